@@ -380,7 +380,7 @@ func (x *Exec) havocTarget(env *SpecEnv, st *State, mt ModTarget) {
 			panic(specErr("modifies %s[*]: not a slice", mt.Text))
 		}
 		es := x.S.SortOf(sl.Elem())
-		hn, hs := x.S.ElemHeap(es)
+		hn, hs := x.S.ElemHeapT(sl.Elem())
 		h := x.heapGet(st, hn, hs)
 		ref := Term{app("s_ref", v.T), "Int"}
 		x.heapSet(st, hn, mkStore(h, ref, x.declare("marr", arraySort(x.S.Idx(), es))))
